@@ -254,6 +254,17 @@ def gen_T08():
     for k, v in exp.items():
         out += 'Definition EXPECT_%s : list N := %s.\n' % (k, clist(cN(x) for x in v))
     out += 'Definition REQUEST_CAPABILITIES : list (list N) := %s.\n' % clist(cstr(x) for x in sorted(req))
+    # Irc.feedMsg's nick/server bookkeeping: the numerics whose first argument overwrites irc.nick before the handler runs
+    setters = None
+    for n in irc.body:
+        if isinstance(n, ast.Assign) and ast.unparse(n.targets[0]) == '_nickSetters':
+            setters = sorted(int(x) for x in ast.literal_eval(n.value.args[0]))
+    need(setters is not None, 'Irc._nickSetters')
+    src_feed = ast.unparse(find_def(t, 'feedMsg', 'Irc'))
+    need('if msg.command in self._nickSetters:\n        if msg.args[0] != self.nick:\n            self.nick = msg.args[0]' in src_feed
+         and src_feed.index('if msg.command in self._nickSetters:') < src_feed.index('method = self.dispatchCommand(msg.command, msg.args)')
+         and 'method = self.dispatchCommand(msg.command, msg.args)\n    if method is not None:\n        method(msg)' in src_feed, 'Irc.feedMsg: pre-processing / dispatch changed')
+    out += 'Definition NICK_SETTERS : list N := %s.\n' % clist(cN(x) for x in setters)
     out += 'Definition MAX_LINE_SIZE : nat := %d.\n' % maxline
     out += 'Definition AUTHENTICATE_CHUNK_SIZE : nat := %d.\n' % chunk
     out += 'Definition HAS_filterSaslMechanisms : bool := %s.\n' % ('true' if has_filter else 'false')
